@@ -557,6 +557,8 @@ class CallMixin(object):
         for exc, wit in sorted(self.lite.escapes(init.qname)):
             self.raise_(ctx, st, node, exc, "may escape from %s (%s)" % (init.qname, wit), kind="summary")
         st = st.heap_set(oid, "<ctor-args>", VTuple([a for a in args if not isinstance(a, tuple)]))
+        if init.qname in self.watch_results:
+            self.watch_results[init.qname].append((ctx.qname, self.site(ctx, node), [obj] + list(args), dict(kwargs), st, [(obj, st)]))
         return [(obj, st)]
 
 
